@@ -411,6 +411,11 @@ def cases(tier, seed):
             out += cases_for(cx, 'plain', alph['plain'], tier, r, workdir)
             out += cases_for(cx, 'csv-quoting', alph['csv-quoting'], tier, r, workdir)
             out += dat_cases(cx, workdir, r)
+        # more than 1000 rows / more than 1000 concept lines (writers that work in batches must not lose a line)
+        big = gen.Ctx([(1 + g % 3) for g in range(1003)], 2, 'big:1003x2')
+        out += cases_for(big, 'plain', alph['plain'], 'quick', r, workdir)
+        n = 11
+        out += dat_cases(gen.Ctx([((1 << n) - 1) & ~(1 << i) for i in range(n)], n, 'big:contranominal11'), workdir, r)
         out += infer_cases()
         seen, uniq = set(), []
         for c in out:
